@@ -557,6 +557,15 @@ func didDomains(e *domEnv, thorough bool) []*msgDom {
 		fclass{Label: "type-unknown", Odd: true, Set: withDoc(func(d *didtypes.DIDDocument) {
 			d.VerificationMethods = []*didtypes.VerificationMethod{vmOf(d, "key1", "MyOwnKey2031", pub)}
 		})},
+		fclass{Label: "type-ed25519-33byte-key", Odd: true, Set: withDoc(func(d *didtypes.DIDDocument) {
+			d.VerificationMethods = []*didtypes.VerificationMethod{vmOf(d, "key1", "Ed25519VerificationKey2018", pub)}
+		})},
+		fclass{Label: "type-ed25519-1byte-key", Odd: true, Set: withDoc(func(d *didtypes.DIDDocument) {
+			d.VerificationMethods = []*didtypes.VerificationMethod{vmOf(d, "key1", "Ed25519VerificationKey2018", "2")}
+		})},
+		fclass{Label: "type-jwk-33byte-key", Odd: true, Set: withDoc(func(d *didtypes.DIDDocument) {
+			d.VerificationMethods = []*didtypes.VerificationMethod{vmOf(d, "key1", "JsonWebKey2020", pub)}
+		})},
 		fclass{Label: "key-empty", Odd: true, Set: withDoc(func(d *didtypes.DIDDocument) {
 			d.VerificationMethods = []*didtypes.VerificationMethod{vmOf(d, "key1", es256k, "")}
 		})},
@@ -598,6 +607,10 @@ func didDomains(e *domEnv, thorough bool) []*msgDom {
 				d.AssertionMethods = []didtypes.VerificationRelationship{didtypes.NewVerificationRelationship(d.VerificationMethods[0].Id)}
 			}
 		})},
+		{Label: "assertion-ref-to-embedded-auth-method", Odd: true, Set: withDoc(func(d *didtypes.DIDDocument) {
+			// resolves only if the authentication list embeds a method "ded" - which is NOT in verificationMethod
+			d.AssertionMethods = []didtypes.VerificationRelationship{ref(d, "ded")}
+		})},
 		{Label: "keyagreement-dangling", Odd: true, Set: withDoc(func(d *didtypes.DIDDocument) { d.KeyAgreements = []didtypes.VerificationRelationship{ref(d, "nokey")} })},
 		{Label: "capinvocation-dedicated-badtype", Odd: true, Set: withDoc(func(d *didtypes.DIDDocument) {
 			d.CapabilityInvocations = []didtypes.VerificationRelationship{didtypes.NewVerificationRelationshipDedicated(*vmOf(d, "ded2", "", pub))}
@@ -629,6 +642,7 @@ func didDomains(e *domEnv, thorough bool) []*msgDom {
 		{Label: "nil", Odd: true, Set: func(m sdk.Msg) { setSig(m, nil) }},
 		{Label: "empty", Odd: true, Set: func(m sdk.Msg) { setSig(m, []byte{}) }},
 		{Label: "1byte", Odd: true, Set: func(m sdk.Msg) { setSig(m, []byte{7}) }},
+		{Label: "65bytes", Odd: true, Set: func(m sdk.Msg) { setSig(m, bytes.Repeat([]byte{2}, 65)) }},
 	}}
 	didField := strField("did", setDid, didStrClasses(e, thorough)...)
 	fromField := strField("from", setFrom, addrClasses(e, e.A, thorough)...)
